@@ -89,6 +89,29 @@ func discover() (overlay map[string]string, hs []harnessRef, err error) {
 	return
 }
 
+// restrictOverlay keeps, besides the zzverif support packages, only the harness files of the
+// packages that hold a harness of the property being checked: a harness of another property in a
+// package this run merely depends on must not be able to break the build (it may refer to
+// identifiers a change under test renamed).
+func restrictOverlay(overlay map[string]string, all []harnessRef, prop string) map[string]string {
+	keep := map[string]bool{}
+	for _, h := range all {
+		if propOf(h.Name) == prop {
+			keep[h.Rel] = true
+		}
+	}
+	out := map[string]string{}
+	root := filepath.Join(verifRoot(), "harness")
+	for virt, real := range overlay {
+		rel, _ := filepath.Rel(root, real)
+		dir := filepath.Dir(rel)
+		if strings.HasPrefix(dir, "zzverif") || keep[dir] {
+			out[virt] = real
+		}
+	}
+	return out
+}
+
 func propOf(name string) string {
 	return strings.Split(name, "_")[1]
 }
@@ -197,6 +220,7 @@ func Check(o Options) int {
 		fmt.Fprintln(os.Stderr, "discover:", err)
 		return 2
 	}
+	overlay = restrictOverlay(overlay, all, o.Property)
 	var hs []harnessRef
 	relSet := map[string]bool{"zzverif/nondet": true}
 	for _, h := range all {
